@@ -214,6 +214,21 @@ class ChainBuild(Suite):
                  files={'multi.json': {'configs': {'main': {'uses': ['#model as a', '#model as b'], 'main_part': True},
                                                    'model': {'tasks': ['@M.*'], 'factor': 1, 'nested': {'k': [1]}}}}},
                  base={'file': 'multi.json'}, context={'dict': {'for_namespaces': {'a': {'factor': 5, 'nested': {'k': [9]}}}}}),
+            # two different parts of one multi-config file under the same namespace; a mounted part that uses a sibling part
+            dict(classes=[dict(K(0, 'X1', params=[P('v')]), name='x1'), dict(K(1, 'X2', params=[P('v')]), name='x2')],
+                 files={'multi.json': {'configs': {'main': {'uses': ['#left as shared', '#right as shared'], 'main_part': True},
+                                                   'left': {'tasks': ['@M.X1'], 'v': 1}, 'right': {'tasks': ['@M.X2'], 'v': 2}}}},
+                 base={'file': 'multi.json'}, context=None),
+            dict(classes=[dict(K(0, 'A', params=[P('v')]), name='a'), dict(K(1, 'Dep', meta_inputs=[{'cls': 0}]), name='dep')],
+                 files={'multi.json': {'configs': {'main': {'uses': ['#model as m'], 'main_part': True},
+                                                   'model': {'tasks': ['@M.Dep'], 'uses': '#data'}, 'data': {'tasks': ['@M.A'], 'v': 3}}}},
+                 base={'file': 'multi.json'}, context=None),
+            # values that compare equal to the default of the parameter without being it (1.0 and True for 1, False for 0)
+            *[dict(classes=[dict(K(0, 'Abc', params=[P('x'), P('y', default=[dflt])]), name='abc'),
+                            dict(K(1, 'Dep', meta_inputs=[{'cls': 0}]), name='dep')],
+                   files={}, base={'name': 'm', 'data': dict({'tasks': ['@M.*'], 'x': 1}, **({} if where == 'ctx' else {'y': val}))},
+                   context=({'dict': {'y': val}} if where == 'ctx' else None))
+              for dflt, val in ((1, 1.0), (1, True), (0, False), (0, 0.0), (1.0, 1)) for where in ('cfg', 'ctx')],
             # the same pattern input in two namespaces whose matching tasks differ
             dict(classes=[dict(K(0, 'X1'), name='x1'), dict(K(1, 'X2'), name='x2'), dict(K(2, 'X3'), name='x3'),
                           dict(K(3, 'Collect', meta_inputs=[{'name': '~x.*'}]), name='collect')],
